@@ -27,6 +27,12 @@ TEXT = {
         'level_text': 'Bit-precise proof over all values of every numeric / bool / option-scalar field that each accessor returns exactly the field RESPONSES.md assigns to it (string accessors return the very same memory, so the claim is independent of string content), that as_json() carries exactly those values and that as_original() is the same object.',
         'level_note': 'Player lists have one element (bounded, stated in the evidence); hash tables are empty with fixed keys; epic and minetest types need the tls/serde features, switched on in the scratch copy only; Kani/CBMC trusted.',
     },
+    'C14': {
+        'technique': 'Kani proof harnesses generated on every run from games/definitions.rs and the game_query_mod! rows: per table entry, the dedicated function and the generic entry point are run against recorders standing in for the protocol-level query functions and transport constructors, and the recorded call is compared with the definition',
+        'engine': 'kani',
+        'level_text': 'Bit-precise proof, for each of the 96 table entries and all 65537 port choices (given / omitted), that the dedicated module and the generic entry point (without timeout, with the default timeout, with a sample of extra settings) reach the layer below with the destination port = the given port or the DEFINITION default, the definition protocol version / engine / gather settings (or the extra settings where the protocol takes them) and the timeout unchanged. A vacuity guard (same harness with a wrong expected port, must be refuted) runs every time.',
+        'level_note': 'Recorders replace the protocol functions, so equal arguments are taken to give equal traffic; only the first call to the layer below is checked (the path is cut there); extra settings are sampled, not enumerated; response post-processing by dedicated modules is not compared; Kani/CBMC trusted.',
+    },
     'C06': {
         'technique': 'Verus contracts on the real Unreal2StringDecoder and the three parse functions: decoder == reference model for every length byte, parsers are left inverses of spec encoders (loops by quantified invariants)',
         'level_text': 'Unbounded proof: decode_string matches the UE2 string model for all 256 length-byte values (Latin-1 and UCS-2, optional 0x01, cursor never past the data), ServerInfo::parse / Players::parse (bot iff ping == 0, every player once, nothing already collected touched) / MutatorsAndRules::parse (every key/value pair recorded once in order) on well-formed bodies of any length, response-header check, request bytes, greedy receive loops terminate on the finite reply script.',
